@@ -388,6 +388,9 @@ def run(c, facts, tier):
                     break
         else:
             bad.append("the digit run is not a bounded run over a small alphabet")
+        from .. import report as _rep8
+
+        _rep8.require(c, facts, "c05", "C08.octal", pk, "the whole argument word is the mode (nothing after it is dropped)", lambda o: o["rule"] == "C05.whole-arg" and "Perm" in o["instance"], "`-perm 00644` must not be read as its first four digits: that the nested parse of the word consumes it entirely is decided by C05.whole-arg")
         c.ob("C08.octal", pk, "octal digits, radix 8, exact bit conversion", digits_ok and not bad, "digits %s; every one of the %d digit strings the run can match evaluated through the map chain%s" % (peg.cs_show(st["cs"]), nstr, "" if not bad else ": " + "; ".join(bad)))
         c.ob("C08.octal", pk, "the permission is exactly the mode of the octal value", not bad and nstr > 0, "for each of the %d strings X the value is Permission(bits = X read in base 8), nothing masked, nothing panics%s" % (nstr, "" if not bad else "; EXCEPT " + "; ".join(bad)), witness="-perm 4755" if bad else None)
         c.ob(
